@@ -69,6 +69,7 @@ type Up struct {
 	Err        bool `json:"err"`
 	TC         bool `json:"tc"`
 	WithOpt    bool `json:"with_opt"`
+	EmptyFor   uint16 `json:"empty_for"` // queries of this type get an empty NOERROR answer (0 = none): the name "has no record of that type"
 }
 
 type Case struct {
@@ -82,8 +83,18 @@ type Case struct {
 }
 
 var names = []string{
-	"www.example.com.", "Www.Example.COM.", "hosted.example.", "HOSTED.example.", "sub.h.example.", "redir.example.", "x.rd.example.", "arb.example.", "other.test.", "o2.test.", "a.",
+	"www.example.com.", "Www.Example.COM.", "hosted.example.", "HOSTED.example.", "sub.h.example.", "redir.example.", "x.rd.example.", "arb.example.", "other.test.", "o2.test.", "a.", "target.example.", "cdn.example.net.", "www2.example.com.",
 	strings.Repeat("a23456789012345678901234567890123456789012345678901234567890123.", 3) + "b234567890123456789012345678901234567890123456789012345678901.", // 255 octets on the wire (3 x 64 + 62 + root)
+}
+
+// alias -> target of the redirect rules the harness configures (lower case)
+var redirectTarget = map[string]string{"redir.example.": "target.example.", "x.rd.example.": "cdn.example.net.", "www.example.com.": "www2.example.com."}
+
+func prevName(qs []Query, i int) string {
+	if i == 0 {
+		return ""
+	}
+	return qs[i-1].Name
 }
 
 var execs = []string{"$cache", "$cache", "cache 1024", "$redir", "$redir", "$hosts", "black_hole 192.0.2.66 2001:db8::66", "$arb", "reject", "reject 3", "reject 2", "ttl 5", "ttl 10-20", "ecs 1.2.3.4", "prefer_ipv4", "prefer_ipv6", "$fwd", "$fwd", "$fwd", "$fb", "accept", "drop_resp"}
@@ -131,6 +142,7 @@ func genUp(t *rapid.T, l string, limits []int) Up {
 	u.Err = rapid.IntRange(0, 7).Draw(t, l+"err") == 0
 	u.TC = rapid.IntRange(0, 11).Draw(t, l+"tc") == 0
 	u.WithOpt = rapid.Bool().Draw(t, l+"opt")
+	u.EmptyFor = rapid.SampledFrom([]uint16{0, 0, 1, 28}).Draw(t, l+"emptyFor")
 	return u
 }
 
@@ -147,7 +159,10 @@ func genCase(t *rapid.T) Case {
 	nq := rapid.IntRange(1, 5).Draw(t, "nq")
 	for i := 0; i < nq; i++ {
 		q := Query{ID: uint16(rapid.IntRange(0, 65535).Draw(t, "id")), RD: rapid.Bool().Draw(t, "rd"), AD: rapid.IntRange(0, 3).Draw(t, "ad") == 0, CD: rapid.IntRange(0, 3).Draw(t, "cd") == 0, Z: rapid.IntRange(0, 7).Draw(t, "z") == 0}
-		if i > 0 && rapid.Bool().Draw(t, "repeat") { // repeats hit state left by earlier queries (cache, selector memory)
+		if tgt, isAlias := redirectTarget[strings.ToLower(prevName(c.Queries, i))]; i > 0 && isAlias && rapid.Bool().Draw(t, "askTarget") {
+			// the previous query was for a redirected name: now ask for its target directly (same type and class)
+			q.Name, q.Type, q.Class = tgt, c.Queries[i-1].Type, c.Queries[i-1].Class
+		} else if i > 0 && rapid.Bool().Draw(t, "repeat") { // repeats hit state left by earlier queries (cache, selector memory)
 			q.Name, q.Type, q.Class = c.Queries[i-1].Name, c.Queries[i-1].Type, c.Queries[i-1].Class
 		} else {
 			q.Name = names[rapid.IntRange(0, len(names)-1).Draw(t, "name")]
@@ -183,6 +198,39 @@ func genCase(t *rapid.T) Case {
 	}
 	c.Up = genUp(t, "up.", limits)
 	c.UpOther = genUp(t, "upo.", limits)
+	if rapid.IntRange(0, 9).Draw(t, "redirectScenario") == 0 {
+		// redirect in front of a cache: first the alias is asked, then its target directly (and the alias again)
+		cacheExec := rapid.SampledFrom([]string{"$cache", "cache 1024"}).Draw(t, "rsCache")
+		c.Main = append([]Rule{{Exec: "$redir"}, {Exec: cacheExec}}, c.Main...)
+		c.Up.Err, c.Up.Rcode, c.Up.TC = false, 0, false
+		if c.Up.TargetSize == 0 {
+			c.Up.TargetSize = 120
+		}
+		aliases := []string{"redir.example.", "x.rd.example.", "www.example.com."}
+		al := aliases[rapid.IntRange(0, 2).Draw(t, "rsAlias")]
+		ty := rapid.SampledFrom([]uint16{1, 28, 16}).Draw(t, "rsType")
+		mk := func(name string, id uint16) Query {
+			return Query{ID: id, Name: name, Type: ty, Class: 1, RD: true, Via: "handle", UDP: rapid.Bool().Draw(t, "rsUdp")}
+		}
+		c.Queries = []Query{mk(al, 11), mk(redirectTarget[al], 12), mk(al, 13)}
+	}
+	if rapid.IntRange(0, 9).Draw(t, "selectorScenario") == 0 {
+		// the dual-stack selector lets the original reply pass (the name has no record of the preferred type);
+		// the reply is larger than what a small-buffer UDP client advertised
+		pref, prefType, other := "prefer_ipv4", uint16(1), uint16(28)
+		if rapid.Bool().Draw(t, "pref6") {
+			pref, prefType, other = "prefer_ipv6", 28, 1
+		}
+		c.Main = append([]Rule{{Exec: pref}}, c.Main...)
+		c.Up.EmptyFor, c.Up.Err, c.Up.Rcode = prefType, false, 0
+		c.Up.TargetSize = rapid.IntRange(300, 1400).Draw(t, "selSize")
+		for i := range c.Queries {
+			if c.Queries[i].Malformed == "" && !strings.HasPrefix(strings.ToLower(c.Queries[i].Name), "o") {
+				c.Queries[i].Type, c.Queries[i].Class, c.Queries[i].UDP, c.Queries[i].Via = other, 1, true, "handle"
+				c.Queries[i].Opt = &Opt{Size: rapid.SampledFrom([]uint16{0, 512, 600, 800, 1000}).Draw(t, "selOptSize")}
+			}
+		}
+	}
 	return c
 }
 
@@ -198,7 +246,7 @@ func respond(u Up, clientHasOpt func() bool) func(q *dns.Msg) (*dns.Msg, error) 
 		r.Rcode = u.Rcode
 		r.Truncated = u.TC
 		qq := q.Question[0]
-		if u.TargetSize > 0 {
+		if u.TargetSize > 0 && !(u.EmptyFor != 0 && qq.Qtype == u.EmptyFor) {
 			size := 12 + len(qq.Name) + 5
 			for i := 0; size < u.TargetSize && i < 400; i++ {
 				remain := u.TargetSize - size
